@@ -1,30 +1,30 @@
-import LunarVerif.Proofs.C06Seq
-import LunarVerif.Proofs.C06Ttl
+import LunarVerif.Proofs.C06Ops
 /-!
 # C06 — Queued requests: one verdict within TTL, priority order, bounded queue
 
 Property theorems only (helpers live in `Proofs/C06*.lean`).  The model (`Model/C06.lean`) is an
 interleaving transition system at critical-section granularity: request threads, the processing
 loop, the TTL watcher and shutdown.  `run cfg s acts` applies an arbitrary list of thread actions
-(`Act`), an action that is not enabled being a no-op; the theorems quantify over ALL such schedules,
-all configurations (`queue_size`, TTL, quota maximum and window) and all start instants.
-`noCancel acts` = the schedule contains no shutdown.
+(`Act`), an action that is not enabled being a no-op; the theorems quantify over ALL such schedules
+— shutdown (`cancel`) at any point included unless stated —, all configurations (`queue_size`, TTL,
+quota maximum and window) and all start instants.
 
-Parts of the property the unchanged code violates are stated as `_violation_witness` theorems
-(machine-checked runs of the model, the same runs as `corpus/C06/F06?.ops`, which replay on the real
-processor) next to what does hold (`priority_strict`, `size_bound_sequential`, `one_verdict`).
+The model describes the code after the repairs F06a (a re-enqueued request keeps the timestamp of
+its first enqueue), F06b (slot test and reservation are one atomic step) and F06c (`StopAll`
+arbitrates with `StartProcessing`); the former violation witnesses are regression cases
+(`corpus/C06/regress-F06?.ops`) that now satisfy the whole Spec predicate (examples below).
 Not proved here: (T) the upper bound "no later than TTL + slack" and liveness — they depend on
 real time and scheduler fairness and are measured by the harness, see `notes/C06.md`.
 -/
 namespace LunarVerif.C06
 
-/-! ### (V) exactly one verdict -/
+/-! ### (V) exactly one verdict — with or without shutdown -/
 
-/-- Without shutdown, under every schedule: no panic; every request's waiter is signalled (Done) at
-most once — exactly once iff the request reached state `processed` —; the WaitGroup counter is 1
-before and 0 after; and an `Execute` call that returned did so after that single Done, with the
-verdict that Done carried. -/
-theorem one_verdict (cfg : Cfg) (t0 : Nat) (acts : List Act) (hn : noCancel acts) :
+/-- Under every schedule: no panic; every request's waiter is signalled (Done) at most once —
+exactly once iff the request reached state `processed` —; the WaitGroup counter is 1 before and 0
+after; and an `Execute` call that returned did so after that single Done, with the verdict that
+Done carried. -/
+theorem one_verdict (cfg : Cfg) (t0 : Nat) (acts : List Act) :
     let s := run cfg (St.init t0) acts
     s.panicked = false ∧
     ∀ i, (s.reqs i).dones ≤ 1 ∧
@@ -32,7 +32,7 @@ theorem one_verdict (cfg : Cfg) (t0 : Nat) (acts : List Act) (hn : noCancel acts
          (s.reqs i).wg = 1 - (s.reqs i).dones ∧
          ∀ a, (s.reqs i).pc = .returned a → (s.reqs i).dones = 1 ∧ a = ((s.reqs i).res == .success) := by
   intro s
-  have h : InvA s := invA_run cfg acts (St.init t0) hn (invA_init t0)
+  have h : InvA s := invA_run cfg acts (St.init t0) (invA_init t0)
   refine ⟨h.np, fun i => ?_⟩
   have hd := h.dn i
   have hw := h.wg i
@@ -45,33 +45,34 @@ theorem one_verdict (cfg : Cfg) (t0 : Nat) (acts : List Act) (hn : noCancel acts
     refine ⟨?_, this.2⟩
     rw [hd, this.1]; simp
 
-/-- The same on the observable history: the Spec predicate (V) holds of the trace of every
-schedule without shutdown. -/
-theorem one_verdict_observable (cfg : Cfg) (t0 : Nat) (acts : List Act) (hn : noCancel acts) :
-    scan verdictOk [] (run cfg (St.init t0) acts).trace.reverse = true := by
-  have h := (invAT_run cfg acts (St.init t0) hn (invA_init t0) (invT_init t0)).2
-  rw [scan_reverse]; exact h.tv
+/-- The same on the observable history: the Spec predicates (V) and "no crash" hold of the trace of
+every schedule. -/
+theorem one_verdict_observable (cfg : Cfg) (t0 : Nat) (acts : List Act) :
+    let h := (run cfg (St.init t0) acts).trace.reverse
+    scan verdictOk [] h = true ∧ scan noPanic [] h = true := by
+  have h := (invAT_run cfg acts (St.init t0) (invA_init t0) (invT_init t0)).2
+  exact ⟨by rw [scan_reverse]; exact h.tv, by rw [scan_reverse]; exact h.tp⟩
 
-/-- non-vacuity: in the F06a scenario request 0 is allowed, request 2 is allowed, each after exactly
-one Done (13 macro-operations, no shutdown). -/
+/-- non-vacuity: quota 1 per second, three requests of one priority: 0 is allowed at once, 1 (the
+earlier of the two waiters) at the roll-over of the window, 2 still waits; each Done happened once. -/
 example :
     let s := (runOps ⟨5, 2000, 1, 1000⟩ { s := St.init 1700000000000 }
       [.arrive 1, .tick, .tick, .arrive 1, .arrive 1, .tick, .tick, .tick, .tick, .tick, .tick, .tick, .tick]).s
-    (s.reqs 0).pc = .removed ∧ (s.reqs 0).dones = 1 ∧ (s.reqs 2).res = .success ∧ (s.reqs 2).dones = 1 ∧
-    (s.reqs 1).pc = .parked ∧ (s.reqs 1).dones = 0 := by
+    (s.reqs 0).pc = .removed ∧ (s.reqs 0).dones = 1 ∧ (s.reqs 1).res = .success ∧ (s.reqs 1).dones = 1 ∧
+    (s.reqs 2).pc = .parked ∧ (s.reqs 2).dones = 0 := by
   decide +kernel
 
 /-! ### (Q) allowed only when the quota admits -/
 
-/-- Without shutdown, under every schedule: a request whose result is `success` is one for which the
-quota's last `Inc;Allowed` answered yes; and on the observable history every `allowed` verdict is
-preceded by a successful quota attempt for that request with no refused attempt in between. -/
-theorem allowed_implies_quota (cfg : Cfg) (t0 : Nat) (acts : List Act) (hn : noCancel acts) :
+/-- Under every schedule: a request whose result is `success` is one for which the quota's last
+`Inc;Allowed` answered yes; and on the observable history every `allowed` verdict is preceded by a
+successful quota attempt for that request with no refused attempt in between. -/
+theorem allowed_implies_quota (cfg : Cfg) (t0 : Nat) (acts : List Act) :
     let s := run cfg (St.init t0) acts
     (∀ i, (s.reqs i).res = .success → (s.reqs i).qok = true) ∧
     scan quotaOk [] s.trace.reverse = true := by
   intro s
-  have h := invAT_run cfg acts (St.init t0) hn (invA_init t0) (invT_init t0)
+  have h := invAT_run cfg acts (St.init t0) (invA_init t0) (invT_init t0)
   refine ⟨h.1.qk, ?_⟩
   rw [scan_reverse]; exact h.2.tq
 
@@ -82,25 +83,25 @@ example :
     (s.reqs 0).res = .success ∧ (s.reqs 0).qok = true ∧ (s.reqs 1).res = .pending ∧ (s.reqs 1).qok = false := by
   decide +kernel
 
-/-! ### (P) priority order -/
+/-! ### (P) priority order and FIFO within a priority -/
 
-/-- Without shutdown, under every schedule: whenever the processing loop is about to take the next
-request (`loop = running`), the heap minimum `m` it will pop has the least priority number among
-ALL requests that wait and could be served (parked, state `enqueued`): no waiter with a strictly
+/-- Under every schedule: whenever the processing loop is about to take the next request
+(`loop = running`), the heap minimum `m` it will pop has the least priority number among ALL
+requests that wait and could be served (parked, state `enqueued`): no waiter with a strictly
 lower priority number is passed over.  (A request is allowed only after having been popped this
 way: `granted i` is reached from `popped i` only.) -/
-theorem priority_strict (cfg : Cfg) (t0 : Nat) (acts : List Act) (hn : noCancel acts) :
+theorem priority_strict (cfg : Cfg) (t0 : Nat) (acts : List Act) :
     let s := run cfg (St.init t0) acts
     ∀ m, s.loop = .running → minItem s.heap = some m →
       m.prio = (s.reqs m.id).prio ∧
       ∀ i, (s.reqs i).pc = .parked → (s.reqs i).st = .enqueued → m.prio ≤ (s.reqs i).prio := by
   intro s m hl hm
-  have h := (invAH_run cfg acts (St.init t0) hn (invA_init t0) (invH_init t0)).2
+  have h := (invAH_run cfg acts (St.init t0) (invA_init t0) (invH_init t0)).2
   have hmem := minItem_mem _ _ hm
-  refine ⟨(h.hi m hmem).2, fun i hp hs => ?_⟩
+  refine ⟨(h.hi m hmem).2.1, fun i hp hs => ?_⟩
   obtain ⟨x, hx, hid⟩ := h.el i hp hs (by rw [hl]; simp)
   have := hle_prio _ _ (minItem_le _ _ hm x hx)
-  rw [(h.hi x hx).2, hid] at this
+  rw [(h.hi x hx).2.1, hid] at this
   exact this
 
 /-- non-vacuity: priorities 5 then 1 arrive, the loop wakes up: the minimum is the request with
@@ -111,81 +112,61 @@ example :
     s.loop = .running ∧ (minItem s.heap).map (·.id) = some 1 ∧ (s.reqs 0).pc = .parked ∧ (s.reqs 0).st = .enqueued := by
   decide +kernel
 
-/-- What does hold within one priority (without shutdown, under every schedule): the loop serves in
-the order of the LAST push — arrival or re-push after a refused attempt — not in the order of
-arrival: the popped minimum `m` has the smallest heap timestamp among all entries of its priority,
-and every waiter that could be served has an entry.  That the last push is not the arrival is
-exactly F06a. -/
-theorem fifo_by_last_push (cfg : Cfg) (t0 : Nat) (acts : List Act) (hn : noCancel acts) :
+/-- FIFO within one priority, under every schedule.  `pushTs` is the stamp a request got at its
+FIRST enqueue (stamps grow with every enqueue: a request first enqueued later has a larger one);
+every heap entry of a request carries that stamp, also after refused attempts; so the minimum `m`
+the loop pops was first enqueued no later than any waiter of the same priority that could be
+served. -/
+theorem fifo_strict (cfg : Cfg) (t0 : Nat) (acts : List Act) :
     let s := run cfg (St.init t0) acts
+    (∀ i, (s.reqs i).pushed = true → (s.reqs i).pushTs < s.seq) ∧
+    (∀ x ∈ s.heap, x.ts = (s.reqs x.id).pushTs) ∧
     ∀ m, s.loop = .running → minItem s.heap = some m →
-      (∀ x ∈ s.heap, x.prio = m.prio → m.ts ≤ x.ts) ∧
-      ∀ i, (s.reqs i).pc = .parked → (s.reqs i).st = .enqueued → ∃ x ∈ s.heap, x.id = i := by
-  intro s m hl hm
-  have h := (invAH_run cfg acts (St.init t0) hn (invA_init t0) (invH_init t0)).2
-  refine ⟨fun x hx hp => ?_, fun i hp hs => h.el i hp hs (by rw [hl]; simp)⟩
+      ∀ i, (s.reqs i).pc = .parked → (s.reqs i).st = .enqueued → (s.reqs i).prio = m.prio →
+        (s.reqs m.id).pushTs ≤ (s.reqs i).pushTs := by
+  intro s
+  have h := (invAH_run cfg acts (St.init t0) (invA_init t0) (invH_init t0)).2
+  refine ⟨h.g3, fun x hx => (h.hi x hx).2.2.2, fun m hl hm i hp hs hpr => ?_⟩
+  have hmem := minItem_mem _ _ hm
+  obtain ⟨x, hx, hid⟩ := h.el i hp hs (by rw [hl]; simp)
+  have hxm : x.prio = m.prio := by rw [(h.hi x hx).2.1, hid]; exact hpr
   have := minItem_le _ _ hm x hx
   unfold hle at this
-  simp [hp] at this
+  simp [hxm] at this
+  rw [(h.hi m hmem).2.2.2, (h.hi x hx).2.2.2, hid] at this
   exact this
 
-/-- F06a.  FIFO within one priority does NOT hold: in this run (no shutdown, no overlapping
-arrivals; quota 1 per second, already used by request 0) requests 1 and 2 have equal priority, 1
-is queued before 2, 1's attempt is refused by the quota and 1 is pushed again with a later
-timestamp; 2 is allowed while 1 still waits.  The observable FIFO predicate fails on the history
-and the failure is in the class `f06aAt`. -/
-theorem fifo_violation_witness :
-    ∃ (cfg : Cfg) (t0 : Nat) (ops : List Op), Op.drain ∉ ops ∧
-      let h := (runOps cfg { s := St.init t0 } ops).s.trace.reverse
-      scan (fifoOk cfg) [] h = false ∧ coreOk cfg h = true ∧ finding cfg h = some "F06a" :=
-  ⟨⟨5, 2000, 1, 1000⟩, 1700000000000,
-   [.arrive 1, .tick, .tick, .arrive 1, .arrive 1, .tick, .tick, .tick, .tick, .tick, .tick, .tick, .tick],
-   by decide, by decide +kernel⟩
+/-- non-vacuity (the former F06a witness, `corpus/C06/regress-F06a.ops`): request 1's attempts are
+refused seven times and it is pushed back each time; it keeps its stamp, stays ahead of request 2
+and is allowed first; the whole Spec predicate — FIFO included — holds of the history. -/
+example :
+    let x := runOps ⟨5, 2000, 1, 1000⟩ { s := St.init 1700000000000 }
+      [.arrive 1, .tick, .tick, .arrive 1, .arrive 1, .tick, .tick, .tick, .tick, .tick, .tick, .tick, .tick]
+    (x.s.reqs 1).pushTs = 1 ∧ (x.s.reqs 2).pushTs = 2 ∧ (x.s.reqs 1).res = .success ∧ (x.s.reqs 2).res = .pending ∧
+    x.s.heap.map (·.ts) = [2] ∧ holds ⟨5, 2000, 1, 1000⟩ x.s.trace.reverse = true := by
+  decide +kernel
 
 /-! ### (B) bounded queue -/
 
-/-- Under every schedule (shutdown included) whose arrivals do not overlap — no `arrive` while
-another request is between its slot test and its registration — the number of waiting requests
-(registered, verdict not yet returned) never exceeds `queue_size`. -/
-theorem size_bound_sequential (cfg : Cfg) (t0 : Nat) (acts : List Act)
-    (hs : SeqArr cfg (St.init t0) acts) :
+/-- Under every schedule (overlapping arrivals and shutdown included) the number of waiting
+requests (registered, verdict not yet returned) never exceeds `queue_size`. -/
+theorem size_bound (cfg : Cfg) (t0 : Nat) (acts : List Act) :
     (nWaiting (run cfg (St.init t0) acts) : Int) ≤ max cfg.size 0 :=
-  invB_bound cfg _ (invB_run cfg acts (St.init t0) hs (invB_init cfg t0))
+  invB_bound cfg _ (invB_run cfg acts (St.init t0) (invB_init cfg t0))
 
-/-- non-vacuity: a non-overlapping schedule in which the bound is reached (size 1, one waiter). -/
+/-- non-vacuity (the former F06b witness): `queue_size = 1`, two arrivals before either registers:
+the second finds the slot taken; one request waits. -/
 example :
-    SeqArr ⟨1, 2000, 1, 1000⟩ (St.init 0) [.arrive 0, .register 0, .push 0] ∧
-    nWaiting (run ⟨1, 2000, 1, 1000⟩ (St.init 0) [.arrive 0, .register 0, .push 0]) = 1 := by
-  refine ⟨⟨fun _ i => by simp [St.init], ?_⟩, by decide +kernel⟩
-  refine ⟨fun ⟨_, h⟩ => (by cases h), ?_⟩
-  exact ⟨fun ⟨_, h⟩ => (by cases h), trivial⟩
+    let s := run ⟨1, 2000, 2, 1000⟩ (St.init 0) [.arrive 0, .arrive 0, .register 0, .push 0, .register 1, .push 1]
+    nWaiting s = 1 ∧ (s.reqs 0).pc = .parked ∧ (s.reqs 1).pc = .rejected := by
+  decide +kernel
 
-/-- The bound for driver runs: every run of macro-operations that uses neither the gate after the
-slot test (`arriveBegin`) nor shutdown has non-overlapping arrivals, hence at most `queue_size`
-requests wait after it — in particular every sequential scenario the harness replays on the real
-processor (the state after EVERY prefix is covered: a prefix of such a run is such a run). -/
-theorem size_bound_sequential_ops (cfg : Cfg) (t0 : Nat) (ops : List Op)
-    (hb : ∀ op ∈ ops, isArriveBegin op = false) (hd : Op.drain ∉ ops) :
-    (nWaiting (runOps cfg { s := St.init t0 } ops).s : Int) ≤ max cfg.size 0 := by
-  rw [runOps_eq_run]
-  exact size_bound_sequential cfg t0 _
-    (seqArr_schedule cfg ops { s := St.init t0 } hb hd (invA_init t0) (fun i => by simp [St.init]))
-
-/-- F06b.  With overlapping arrivals the bound does NOT hold: `queue_size = 1`, two arrivals pass
-the slot test before either registers; both wait. -/
-theorem size_bound_violation_witness :
-    ∃ (cfg : Cfg) (t0 : Nat) (acts : List Act),
-      ¬ ((nWaiting (run cfg (St.init t0) acts) : Int) ≤ max cfg.size 0) :=
-  ⟨⟨1, 2000, 2, 1000⟩, 0, [.arrive 0, .arrive 0, .register 0, .push 0, .register 1, .push 1], by decide +kernel⟩
-
-/-- The same through the macro-operations of `corpus/C06/F06b.ops`: the observable bound predicate
-fails on the history and the failure is in the class `f06bAt`. -/
-theorem size_bound_violation_observable :
-    ∃ (cfg : Cfg) (t0 : Nat) (ops : List Op),
-      let h := (runOps cfg { s := St.init t0 } ops).s.trace.reverse
-      scan (boundOk cfg) [] h = false ∧ coreOk cfg h = true ∧ finding cfg h = some "F06b" :=
-  ⟨⟨1, 2000, 2, 1000⟩, 1700000000000, [.arriveBegin 0, .arriveBegin 0, .arriveEnd 0, .arriveEnd 1, .tick],
-   by decide +kernel⟩
+/-- ... and through the macro-operations of `corpus/C06/regress-F06b.ops`: the whole Spec predicate
+holds of the history. -/
+example :
+    holds ⟨1, 2000, 2, 1000⟩ (runOps ⟨1, 2000, 2, 1000⟩ { s := St.init 1700000000000 }
+      [.arriveBegin 0, .arriveBegin 0, .arriveEnd 0, .tick]).s.trace.reverse = true := by
+  decide +kernel
 
 /-! ### (T) time-outs are never early -/
 
@@ -196,7 +177,7 @@ theorem timeout_only_after_ttl (cfg : Cfg) (t0 : Nat) (acts : List Act) (hn : no
     let s := run cfg (St.init t0) acts
     ∀ i, (s.reqs i).res = .timeout → (s.reqs i).arrival + cfg.ttl < s.now := by
   intro s i hi
-  have h : InvW cfg s := (invAW_run cfg acts (St.init t0) hn (invA_init t0) (invW_init cfg t0)).2
+  have h : InvW cfg s := invAW_run cfg acts (St.init t0) hn (invA_init t0) (invN_init t0) (invW_init cfg t0)
   exact (h.w2 i hi).2
 
 /-- non-vacuity: TTL 1 s, a quota that admits nothing: after 10 ticks (now = arrival + TTL) the
@@ -209,26 +190,49 @@ example :
     (x11.s.reqs 0).pc = .removed := by
   decide +kernel
 
-/-! ### (D) shutdown -/
+/-! ### (D) shutdown releases every waiter and never crashes -/
 
-/-- F06c.  Shutdown is NOT crash-free: request 0 is allowed (Done once) but its removal goroutine
-has not run when the context is cancelled; `StopAll` signals every entry of the watch list,
-request 0 a second time: the WaitGroup counter goes to -1 — the modelled panic.
-(`corpus/C06/F06c.ops`; on the real processor: "sync: negative WaitGroup counter".) -/
-theorem drain_double_done_witness :
-    ∃ (cfg : Cfg) (t0 : Nat) (ops : List Op),
-      let s := (runOps cfg { s := St.init t0 } ops).s
-      s.panicked = true ∧ (s.reqs 0).dones = 2 ∧ (s.reqs 0).wg = -1 ∧
-      finding cfg s.trace.reverse = some "F06c" :=
-  ⟨⟨2, 2000, 2, 1000⟩, 1700000000000, [.holdRemove, .arrive 0, .arrive 0, .tick, .arrive 0, .drain],
-   by decide +kernel⟩
+/-- Under every schedule: once `StopAll` is over (`loop = exited`), every request that was in the
+watch list when it started (`drainSet`: by definition of the model, the ids with `inMap` at that
+moment) has been signalled (`processed`: exactly one Done, by `one_verdict`) or is owned by the TTL
+watcher (`processing`), whose next step signals it.  No crash: `one_verdict` has no side condition. -/
+theorem drain_releases_all (cfg : Cfg) (t0 : Nat) (acts : List Act) :
+    let s := run cfg (St.init t0) acts
+    s.panicked = false ∧
+    (s.loop = .exited → ∀ i ∈ s.drainSet,
+      ((s.reqs i).st = .processed ∧ (s.reqs i).dones = 1) ∨
+      ((s.reqs i).st = .processing ∧ holdsW s.watcher i)) := by
+  intro s
+  have hA : InvA s := invA_run cfg acts (St.init t0) (invA_init t0)
+  have hD : InvD s := invD_run cfg acts (St.init t0) (invD_init t0)
+  refine ⟨hA.np, fun he i hi => ?_⟩
+  have hne := (hD.d2 he i hi).2
+  cases hst : (s.reqs i).st with
+  | enqueued => exact absurd hst hne
+  | processed => left; exact ⟨rfl, by rw [hA.dn i, hst]; simp⟩
+  | processing =>
+    right
+    refine ⟨rfl, ?_⟩
+    rcases (hA.own i).1 hst with h | h
+    · rw [he] at h; cases h
+    · exact h
 
-/-- What does hold at shutdown, on a run: with every removal completed, `StopAll` releases all
-waiters and nothing crashes (two waiters, quota that admits nothing). -/
+/-- non-vacuity (the former F06c witness, `corpus/C06/regress-F06c.ops`): requests 0 and 1 are
+allowed but their removal has not run when the context is cancelled; `StopAll` finds both in the
+watch list, `StartProcessing` fails for both, nobody is signalled twice; the whole Spec predicate
+holds of the history. -/
+example :
+    let s := (runOps ⟨2, 2000, 2, 1000⟩ { s := St.init 1700000000000 }
+      [.holdRemove, .arrive 0, .arrive 0, .tick, .arrive 0, .drain]).s
+    s.panicked = false ∧ s.loop = .exited ∧ s.drainSet = [0, 1] ∧ (s.reqs 0).dones = 1 ∧ (s.reqs 1).dones = 1 ∧
+    (s.reqs 0).res = .success ∧ holds ⟨2, 2000, 2, 1000⟩ s.trace.reverse = true := by
+  decide +kernel
+
+/-- non-vacuity: two waiters, a quota that admits nothing, shutdown: both are released as `blocked`. -/
 example :
     let s := (runOps ⟨3, 2000, 0, 1000⟩ { s := St.init 1700000000000 } [.arrive 0, .arrive 1, .tick, .drain]).s
-    s.panicked = false ∧ s.loop = .exited ∧ (s.reqs 0).pc = .removed ∧ (s.reqs 1).pc = .removed ∧
-    holds ⟨3, 2000, 0, 1000⟩ s.trace.reverse = true := by
+    s.panicked = false ∧ s.loop = .exited ∧ s.drainSet = [0, 1] ∧ (s.reqs 0).res = .timeout ∧ (s.reqs 1).res = .timeout ∧
+    (s.reqs 0).pc = .removed ∧ holds ⟨3, 2000, 0, 1000⟩ s.trace.reverse = true := by
   decide +kernel
 
 /-! ### Connection with the driver / judge -/
@@ -241,23 +245,25 @@ theorem driver_run_is_model_run (cfg : Cfg) (t0 : Nat) (ops : List Op) :
       run cfg (St.init t0) (schedule cfg { s := St.init t0 } ops) :=
   runOps_eq_run cfg ops _
 
-/-- Partial connection theorem: on every driver run without a `drain` operation, the conjuncts (V)
-and (Q) of the judge's predicate are true of the model's history, and no panic occurs.  (The other
-conjuncts are related to the model by the state-level theorems above and by the three witnesses;
-FIFO, the bound under overlapping arrivals and crash-free shutdown are false — F06a, F06b, F06c.) -/
-theorem driver_runs_verdicts_partial (cfg : Cfg) (t0 : Nat) (ops : List Op) (hd : Op.drain ∉ ops) :
+/-- Connection theorem for the conjuncts (V), (Q) and "no crash" of the judge's predicate: they are
+true of the model's history on EVERY driver run (shutdown included).  The other conjuncts — (P),
+FIFO, (B), (T) — are related to the model by the state-level theorems above over all schedules; on
+the trace they are evaluated by the judge on both sides, not proved. -/
+theorem driver_runs_verdicts (cfg : Cfg) (t0 : Nat) (ops : List Op) :
     let h := (runOps cfg { s := St.init t0 } ops).s.trace.reverse
     scan verdictOk [] h = true ∧ scan quotaOk [] h = true ∧ scan noPanic [] h = true := by
   intro h
-  have hn := schedule_noCancel cfg ops { s := St.init t0 } hd
   have e := driver_run_is_model_run cfg t0 ops
-  refine ⟨?_, ?_, ?_⟩
-  · show scan verdictOk [] (runOps cfg { s := St.init t0 } ops).s.trace.reverse = true
-    rw [e]; exact one_verdict_observable cfg t0 _ hn
-  · show scan quotaOk [] (runOps cfg { s := St.init t0 } ops).s.trace.reverse = true
-    rw [e]; exact (allowed_implies_quota cfg t0 _ hn).2
-  · show scan noPanic [] (runOps cfg { s := St.init t0 } ops).s.trace.reverse = true
-    rw [e, scan_reverse]
-    exact (invAT_run cfg _ (St.init t0) hn (invA_init t0) (invT_init t0)).2.tp
+  have h1 := one_verdict_observable cfg t0 (schedule cfg { s := St.init t0 } ops)
+  have h2 := (allowed_implies_quota cfg t0 (schedule cfg { s := St.init t0 } ops)).2
+  simp only [h]
+  rw [e]
+  exact ⟨h1.1, h2, h1.2⟩
+
+/-- ... and the size bound after every driver run (hence after every prefix of one). -/
+theorem driver_runs_bound (cfg : Cfg) (t0 : Nat) (ops : List Op) :
+    (nWaiting (runOps cfg { s := St.init t0 } ops).s : Int) ≤ max cfg.size 0 := by
+  rw [driver_run_is_model_run]
+  exact size_bound cfg t0 _
 
 end LunarVerif.C06
